@@ -68,7 +68,7 @@ def main():
     # a site the inventory flags but the taint run did not reach with hostile text: no concrete input
     for s in bad_sites:
         key = 'safestr-site:' + s['key']
-        if key not in reported_keys and chk.match_known(key) is None:
+        if key not in reported_keys and chk.match_known(key) is None and not chk.violations:
             chk.violation('safestr site classified ' + s['prov'] + ' but not reached by the taint stream',
                           {'site': s['key'], 'line': s['line'], 'provenance': s['prov'], 'rules': s['rules']}, no_input=True)
     # a recorded finding that no longer reproduces
